@@ -799,7 +799,8 @@ PROPS["C16"] = {
                  "C16_register_step_survives_a_lost_regack", "C16_client_answers_every_PUBREL",
                  "C16_sleep_survives_a_lost_disconnect_reply", "C16_qos2_survives_any_loss_pattern",
                  "C16_qos2_loss_pattern_delivery", "C16_new_topic_qos1_survives_any_loss_pattern",
-                 "C16_new_topic_loss_pattern_delivery"],
+                 "C16_new_topic_loss_pattern_delivery", "C16_new_topic_qos2_survives_register_losses",
+                 "C16_new_topic_qos2_delivery"],
     "drivers": ["drv_e2e.test", "drv_gw.test", "drv_client.test"],
     "units": [Unit("drv_e2e", unit_e2e), Unit("drv_gw", unit_gw), Unit("drv_client", unit_client)],
     "mismatch_kinds": [r"^(C2G|G2C|BR|BS|CB|RET)", r"EXTRA (C2G|G2C|BR|BS)", r"MISSING (C2G|G2C|BR|BS)",
